@@ -50,6 +50,14 @@ CLAIMED.update({
    design='5/C11'),
 })
 
+CLAIMED.update({
+ 'C19': dict(
+   technique='Lean 4 proof: refinement of AlignedCursor to Cursor<Vec<u8>> (step theorem + induction over every history), storage as a total byte function; both state machines tied to the real types on the same histories',
+   text='Kernel-checked: step_refines (every operation returns what the standard cursor returns and preserves the refinement relation: same position, length, contents, zeros beyond the length, storage a whole number of alignment units covering the length), run_refines / cursor_refines (every history, no bound on its length), observers, gap_zero_filled. Both models are compared with AlignedCursor<A16/A32/A64> and std::io::Cursor<Vec<u8>> on exhaustive short histories and long random ones; the oracle also compares the two real cursors with each other and checks the storage address.',
+   note='guard: positions and sizes below 2^62 (the usize::MAX corners differ by design); the address of the storage is the allocator contract for Vec<A>, measured by the harness (partial).',
+   design='5/C19'),
+})
+
 NOT_YET = {
 }
 
